@@ -23,6 +23,14 @@ type TargetResult struct {
 	slicer      *Slicer
 }
 
+// KeyFor returns a digest identifying the sliced query of the obligation condition.
+func (tr *TargetResult) KeyFor(cond string) string {
+	if tr.slicer == nil {
+		return hashOf(tr.Script, cond)
+	}
+	return tr.slicer.Key(cond)
+}
+
 // ScriptFor returns the preamble restricted to what the obligation condition can depend on.
 func (tr *TargetResult) ScriptFor(cond string) string {
 	if tr.slicer == nil {
@@ -372,6 +380,15 @@ func (x *Exec) frameObligations(f *frame, c *Contract, entry, final *Heap, args 
 	allowed := map[string][]ml{}
 	for _, l := range locs {
 		p := l.ptr
+		if l.isMap {
+			m := p.T.Underlying().(*types.Map)
+			base := mapHeapKey(p.T)
+			allowed[base+".dom"] = append(allowed[base+".dom"], ml{p.C[0], "", true})
+			for _, cm := range x.comps(m.Elem()) {
+				allowed[base+".val"+cm.suffix] = append(allowed[base+".val"+cm.suffix], ml{p.C[0], "", true})
+			}
+			continue
+		}
 		key := x.ptrKey(p)
 		pt := p.T.Underlying().(*types.Pointer).Elem()
 		for _, cm := range x.comps(pt) {
